@@ -1,33 +1,70 @@
 import Propka.Model.Scoring
+set_option linter.unusedSectionVars false
 /-! Structural facts about the scoring model that hold for every scalar type (also at `Float`): the records of `score`
-    are `finish` of the group index, and `finish` ends with `calculate_total_pka` of exactly the lists it returns. -/
+    are `finish` of the group index, `finish` ends with `calculate_total_pka` of exactly the lists it returns, and the
+    fields of the final record unfold to the per-phase definitions. -/
 namespace Propka.Scoring
 open Propka.Energy
+
+theorem tab_map_range {β : Type} (f : Nat → β) (d : β) (n g : Nat) (hg : g < n) :
+    tab ((Array.range n).map f) d g = f g := by
+  simp [tab, Array.getD, hg]
 
 section
 variable {α : Type} [Add α] [Sub α] [Mul α] [Div α] [Neg α] [NatCast α] [LT α] [LE α]
   [DecidableLT α] [DecidableLE α] [Max α] [Min α] [BEq α] [Inhabited α] [Trig α]
 
-theorem score_length (p : SP α) (env : Env α) (atoms : Array AtomT) (groups : Array (GroupT α)) :
-    (score p env atoms groups).length = groups.size := by
+theorem score_length (p : SP α) (env : Env α) (atoms : Tab AtomT) (groups : Tab (GroupT α)) :
+    (score p env atoms groups).length = groups.n := by
   simp [score]
 
 /-- the record of group `g` is `finish … g` of the tables built once -/
-theorem score_get (p : SP α) (env : Env α) (atoms : Array AtomT) (groups : Array (GroupT α)) (g : Nat) (hg : g < groups.size) :
+theorem score_get (p : SP α) (env : Env α) (atoms : Tab AtomT) (groups : Tab (GroupT α)) (g : Nat) (hg : g < groups.n) :
     (score p env atoms groups)[g]? =
-      some (finish p groups (tab (stagesTab p env atoms groups) Stage.dflt) (pensOf p groups (stagesTab p env atoms groups)) g) := by
+      some (finish p env groups (tab (stagesTab p env atoms groups) Stage.dflt) (pensOf p env groups (stagesTab p env atoms groups)) g) := by
   simp only [score]
   rw [List.getElem?_map, List.getElem?_range hg]
   rfl
 
 /-- **`finish` ends with `calculate_total_pka` of the lists it returns.** -/
-theorem finish_total (p : SP α) (groups : Array (GroupT α)) (st : Nat → Stage α) (pens : List (Nat × Nat)) (g : Nat) :
-    (finish p groups st pens g).pka =
-      totalPka p (gget groups g) (finish p groups st pens g).evol (finish p groups st pens g).eloc
-        (finish p groups st pens g).sc (finish p groups st pens g).bb (finish p groups st pens g).cb := by
+theorem finish_total (p : SP α) (env : Env α) (groups : Tab (GroupT α)) (st : Nat → Stage α) (pens : List (Nat × Nat)) (g : Nat) :
+    (finish p env groups st pens g).pka =
+      totalPka p (gget groups g) (finish p env groups st pens g).evol (finish p env groups st pens g).eloc
+        (finish p env groups st pens g).sc (finish p env groups st pens g).bb (finish p env groups st pens g).cb := by
   unfold finish
   simp only
   split <;> rfl
+
+/-- the stage record of an in-range group, unfolded -/
+theorem stages_get (p : SP α) (env : Env α) (atoms : Tab AtomT) (groups : Tab (GroupT α)) (g : Nat) (hg : g < groups.n) :
+    tab (stagesTab p env atoms groups) Stage.dflt g =
+      stage2 (stage1 p env atoms groups (volF (desTab p env atoms groups)) (nvF (desTab p env atoms groups))
+          (nonIterEms (pairResults p env atoms groups (nvF (desTab p env atoms groups)))) g)
+        (iterEms p groups (tab (stage1Tab p env atoms groups (desTab p env atoms groups)
+            (pairResults p env atoms groups (nvF (desTab p env atoms groups)))) Stage.dflt)
+          (iterInters (pairResults p env atoms groups (nvF (desTab p env atoms groups))))) g := by
+  simp only [stagesTab, stage2Tab]
+  rw [tab_map_range _ _ _ _ hg]
+  simp only [stage1Tab]
+  rw [tab_map_range _ _ _ _ hg]
+
+theorem finish_fields (p : SP α) (env : Env α) (groups : Tab (GroupT α)) (st : Nat → Stage α) (pens : List (Nat × Nat)) (g : Nat) :
+    (finish p env groups st pens g).nv = (st g).nv ∧ (finish p env groups st pens g).buried = (st g).buried ∧
+    (finish p env groups st pens g).evol = (st g).evol ∧ (finish p env groups st pens g).eloc = (st g).eloc := by
+  unfold finish
+  simp only
+  split <;> exact ⟨rfl, rfl, rfl, rfl⟩
+
+/-- removing the determinants towards penalised groups only removes: every final determinant is one of the stage's -/
+theorem finish_dets_sub (p : SP α) (env : Env α) (groups : Tab (GroupT α)) (st : Nat → Stage α) (pens : List (Nat × Nat)) (g : Nat) :
+    (∀ d ∈ (finish p env groups st pens g).sc, d ∈ (st g).sc) ∧ (∀ d ∈ (finish p env groups st pens g).bb, d ∈ (st g).bb) ∧
+    (∀ d ∈ (finish p env groups st pens g).cb, d ∈ (st g).cb) := by
+  unfold finish
+  simp only
+  split
+  · refine ⟨?_, ?_, ?_⟩ <;> intro d hd <;> split at hd
+    all_goals first | exact hd | exact (List.mem_filter.mp hd).1
+  · exact ⟨fun _ h => h, fun _ h => h, fun _ h => h⟩
 end
 
 end Propka.Scoring
